@@ -105,11 +105,11 @@ func (w *World) GenTxEntry(cfg GenCfg) (Entry, bool) {
 			if rapid.IntRange(0, 2).Draw(t, "isConv") == 0 {
 				txs = append(txs, Tx{From: hd.A.FA(), Asset: Tickers[asset-1], Amt: amt, Conv: Tickers[w.Dest(asset, "bdst")-1]})
 			} else {
-				to := w.PickActor("bto")
+				to := w.PickRecipient("bto")
 				if rapid.IntRange(0, 4).Draw(t, "toSelf") == 0 {
-					to = hd.A
+					to = hd.A.FA()
 				}
-				txs = append(txs, Tx{From: hd.A.FA(), Asset: Tickers[asset-1], Amt: amt, Outs: []Xfer{{To: to.FA(), Amt: amt}}})
+				txs = append(txs, Tx{From: hd.A.FA(), Asset: Tickers[asset-1], Amt: amt, Outs: []Xfer{{To: to, Amt: amt}}})
 			}
 		}
 		w.Tag("batch")
@@ -126,13 +126,13 @@ func (w *World) GenTxEntry(cfg GenCfg) (Entry, bool) {
 		return Entry{ExtIDs: [][]byte{[]byte("1600000000")}, Content: rapid.SliceOfN(rapid.Byte(), 0, 60).Draw(t, "garbage"), Minute: w.nextMinute()}, true
 	default:
 		nout := rapid.IntRange(1, 3).Draw(t, "nout")
-		var to []Actor
+		var to []string
 		for i := 0; i < nout; i++ {
-			to = append(to, w.PickActor("to"))
+			to = append(to, w.PickRecipient("to"))
 		}
 		amt := w.AimAmount(hd.V, "xferAmt")
 		w.Tag("transfer")
-		return w.Transfer(hd.A, hd.T, amt, to), true
+		return w.TransferTo(hd.A, hd.T, amt, to), true
 	}
 }
 
